@@ -117,6 +117,26 @@ PROPS = {
             'are not stated; int() of a real is modelled as floor (equal to truncation for the non-negative values here)',
         ],
     },
+    'C14': {
+        'contract_modules': ['c14_vipfile', 'c14_rules_endpoints'],
+        'functions': ['treadmill.vipfile:VipMgr._alloc', 'treadmill.vipfile:VipMgr.alloc', 'treadmill.vipfile:VipMgr.free',
+                      'treadmill.vipfile:VipMgr.garbage_collect', 'treadmill.rulefile:RuleMgr.create_rule',
+                      'treadmill.rulefile:RuleMgr.unlink_rule', 'treadmill.rulefile:RuleMgr.garbage_collect',
+                      'treadmill.endpoints:EndpointsMgr.create_spec', 'treadmill.endpoints:EndpointsMgr.unlink_spec'],
+        'replay': 'c14.py',
+        'assumptions': [
+            'file-system dependency contract (pyvc/engine_fs.py): paths are (directory, name) pairs; symlink raises '
+            'EEXIST and changes nothing iff the name exists; readlink/unlink/stat/listdir as documented there; one '
+            'level of link following; no I/O error other than ENOENT/EEXIST/EINVAL',
+            'sequential: readlink-then-unlink in free/unlink_* are two system calls; another owner acting between '
+            'them (the `schedules` half of the quantifier) is not covered',
+            'rule and spec file names are functions of their arguments (_filenameify / _namify assumed; injectivity is C15)',
+            'managed directories contain only links (or nothing) and every link points into the owners directory, '
+            'which differs from the managed directory (what the create operations establish)',
+            'EndpointsMgr.unlink_all / endpoints.garbage_collect (glob), VipMgr.initialize/list and '
+            'NetworkResourceService.on_create_request/on_delete_request/synchronize are not under contract',
+        ],
+    },
     'C19': {
         'contract_modules': ['c19_allocation_api'],
         'functions': ['treadmill.api.allocation:_check_limit', 'treadmill.api.allocation:_calc_free',
